@@ -454,10 +454,24 @@ type streamReaderWithConvert[T any] struct {
 
 	// panicked: the convert function has panicked; the panic was delivered as an error item
 	panicked bool
+
+	// onEOF is asked once when the source stream has ended: an error it returns is delivered as the last item
+	onEOF   func() error
+	eofDone bool
 }
 
 type convertOptions struct {
 	errWrapper func(error) error
+	onEOF      func() error
+}
+
+// WithOnEOF lets the converted reader ask fn once when the source stream has ended; if fn returns an error,
+// that error is delivered as the last item of the converted stream (for converters that have to check
+// something about the stream as a whole).
+func WithOnEOF(fn func() error) ConvertOption {
+	return func(o *convertOptions) {
+		o.onEOF = fn
+	}
 }
 
 // ConvertOption is an option of StreamReaderWithConvert.
@@ -480,6 +494,7 @@ func newStreamReaderWithConvert[T any](origin iStreamReader, convert func(any) (
 		sr:         origin,
 		convert:    convert,
 		errWrapper: o.errWrapper,
+		onEOF:      o.onEOF,
 	}
 
 	return &StreamReader[T]{
@@ -524,6 +539,12 @@ func (srw *streamReaderWithConvert[T]) recv() (T, error) {
 
 		if err != nil {
 			var t T
+			if err == io.EOF && srw.onEOF != nil && !srw.eofDone {
+				srw.eofDone = true
+				if eofErr := srw.onEOF(); eofErr != nil {
+					return t, eofErr
+				}
+			}
 			if srw.errWrapper != nil && err != io.EOF {
 				err = srw.errWrapper(err)
 			}
@@ -581,6 +602,13 @@ func (srw *streamReaderWithConvert[T]) toStream() *stream[T] {
 			// ret.closed, so a converter that drops everything would hide the close from the source.
 			in, err := srw.sr.recvAny()
 			if err == io.EOF {
+				if srw.onEOF != nil && !srw.eofDone {
+					srw.eofDone = true
+					if eofErr := srw.onEOF(); eofErr != nil {
+						var chunk T
+						_ = ret.send(chunk, eofErr)
+					}
+				}
 				break
 			}
 
